@@ -100,8 +100,27 @@ func (f *frame) applyCall(c *ssa.CallCommon, v ssa.Value, pos token.Pos, deferre
 			f.escape(a)
 		}
 		f.recordCallThrow("dynamic", pos)
-		f.havocAllHeap()
-		return f.resultHavoc(base, resT)
+		slot := f.slotContract(c)
+		var sargs []SV
+		for _, a := range c.Args {
+			sargs = append(sargs, f.get(a))
+		}
+		oldHeap := f.curHeap.clone()
+		if f.wantUnwind() && !f.inDeferred {
+			f.excFromCall("dynamic call", pos, func() {
+				f.havocDynamic(nil)
+				if slot != nil {
+					f.assumeSlot(slot, slot.Unwind, sargs, SV{}, oldHeap)
+				}
+			})
+		}
+		f.havocDynamic(nil)
+		res := f.resultHavoc(base, resT)
+		if slot != nil {
+			e.note("slot contract " + slot.Key + " assumed of every function stored in that field (inductive hypothesis / trusted)")
+			f.assumeSlot(slot, slot.Ensures, sargs, res, oldHeap)
+		}
+		return res
 	}
 	key := funcKey(callee)
 	if callee.Pkg == nil || e.E.L.SSA[callee.Pkg.Pkg.Name()] != callee.Pkg {
@@ -125,6 +144,9 @@ func (f *frame) applyCall(c *ssa.CallCommon, v ssa.Value, pos token.Pos, deferre
 		return f.inlineCall(callee, fc, args, base, resT, pos)
 	}
 	if fc != nil {
+		for _, a := range c.Args {
+			f.escape(a) // references handed to a callee may be stored by it
+		}
 		return f.contractCall(callee, fc, args, base, resT, pos)
 	}
 	// no contract: havoc result and the callee's inferred write set
@@ -133,6 +155,9 @@ func (f *frame) applyCall(c *ssa.CallCommon, v ssa.Value, pos token.Pos, deferre
 	}
 	f.recordCallThrow(key, pos)
 	w := e.E.writeSet(callee)
+	if f.wantUnwind() && !f.inDeferred {
+		f.excFromCall("call "+key, pos, func() { f.havocKeys(w) })
+	}
 	f.havocKeys(w)
 	// interior addresses handed to the callee (&p.f, &s[i], &global) may be written through
 	for i, a := range args {
@@ -155,6 +180,10 @@ func (f *frame) havocKeys(w map[string]bool) {
 		f.havocAllHeap()
 		return
 	}
+	if w["*dyn"] {
+		f.havocDynamic(w)
+		return
+	}
 	if len(w) == 0 {
 		return
 	}
@@ -167,6 +196,9 @@ func (f *frame) havocKeys(w map[string]bool) {
 	}
 	sort.Strings(ks)
 	for _, k := range ks {
+		if e.E.stableKeys()[k] != nil {
+			continue // stable field: never reassigned in existing objects
+		}
 		sortS, ok := e.R.heapDecl[k]
 		if !ok {
 			// not used so far in this query; if it is used later it must not equal the initial array
@@ -268,6 +300,25 @@ func (f *frame) contractCall(callee *ssa.Function, fc *FuncContract, args []SV, 
 		f.assume(cnd)
 	}
 	oldHeap := f.curHeap.clone()
+	if !fc.NoThrow && f.wantUnwind() && !f.inDeferred {
+		f.excFromCall("call "+key, pos, func() {
+			if fc.HasModifies {
+				f.havocModifies(fc, callee, bind)
+			} else if !fc.Pure {
+				f.havocKeys(e.E.writeSet(callee))
+			}
+			for _, th := range fc.Throws {
+				ctx := &evalCtx{f: f, pkg: pkg, bind: bind, heap: oldHeap, what: "throws of " + key}
+				f.assume(ctx.evalBoolText(th.Text))
+			}
+			f.restorePreserved(fc, pkg, oldHeap)
+			f.restoreOnlyAt(fc, bind, oldHeap)
+			for _, uw := range fc.Unwind {
+				ctx := &evalCtx{f: f, pkg: pkg, bind: bind, heap: f.curHeap, oldHeap: oldHeap, oldBind: bind, what: "unwind_ensures of " + key}
+				f.assume(ctx.evalBoolText(uw.Text))
+			}
+		})
+	}
 	if !fc.NoThrow {
 		f.recordCallThrow(key, pos)
 		if len(fc.Throws) > 0 {
@@ -292,6 +343,8 @@ func (f *frame) contractCall(callee *ssa.Function, fc *FuncContract, args []SV, 
 		f.havocKeys(e.E.writeSet(callee))
 	}
 	f.calleePure = ""
+	f.restorePreserved(fc, pkg, oldHeap)
+	f.restoreOnlyAt(fc, bind, oldHeap)
 	if pureCond != "" {
 		f.curHeap = f.mergeHeaps([]string{pureCond, not(pureCond)}, []Heap{oldHeap, f.curHeap})
 	}
@@ -551,34 +604,56 @@ func fieldKeyOf(owner types.Type, field int) string {
 	return "H_" + mangle(typeName(owner)) + "." + st.Field(field).Name()
 }
 
+// writeSet: heap arrays fn may write (caller-visible), including through its static
+// callees; "*dyn" stands for code reached through function values or interfaces, "*" for
+// anything.  Computed for all functions at once as a least fixed point.
 func (E *Engine) writeSet(fn *ssa.Function) map[string]bool {
+	if !E.effectsDone {
+		E.computeWriteSets()
+	}
 	if w, ok := E.effects[fn]; ok {
-		if w == nil {
-			return map[string]bool{"*": true} // recursion in progress
-		}
 		return w
 	}
-	E.effects[fn] = nil
-	w := map[string]bool{}
-	if len(fn.Blocks) == 0 {
-		w["*"] = true
-	}
-	for _, b := range fn.Blocks {
-		for _, in := range b.Instrs {
-			E.instrWrites(nil, in, w)
-			if w["*"] {
-				break
-			}
+	return map[string]bool{"*": true}
+}
+
+func (E *Engine) computeWriteSets() {
+	E.effectsDone = true
+	var fns []*ssa.Function
+	for _, k := range E.L.sortedFuncKeys() {
+		fn := E.L.Funcs[k]
+		fns = append(fns, fn)
+		E.effects[fn] = map[string]bool{}
+		if len(fn.Blocks) == 0 {
+			E.effects[fn]["*"] = true
 		}
 	}
-	for _, anon := range fn.AnonFuncs {
-		_ = anon // closures are only run through dynamic calls, which are "*"
+	for iter := 0; iter < 50; iter++ {
+		changed := false
+		for _, fn := range fns {
+			w := map[string]bool{}
+			for _, b := range fn.Blocks {
+				for _, in := range b.Instrs {
+					E.instrWrites(nil, in, w)
+				}
+			}
+			cur := E.effects[fn]
+			for k := range w {
+				if !cur[k] {
+					cur[k] = true
+					changed = true
+				}
+			}
+		}
+		if !changed {
+			break
+		}
 	}
-	if w["*"] {
-		w = map[string]bool{"*": true}
+	for _, fn := range fns {
+		if E.effects[fn]["*"] {
+			E.effects[fn] = map[string]bool{"*": true}
+		}
 	}
-	E.effects[fn] = w
-	return w
 }
 
 func addrKeys(addr ssa.Value, w map[string]bool) {
@@ -687,7 +762,7 @@ func (E *Engine) callWrites(c *ssa.CallCommon, w map[string]bool) {
 	}
 	callee := c.StaticCallee()
 	if callee == nil {
-		w["*"] = true
+		w["*dyn"] = true // code reached through a function value or interface
 		return
 	}
 	if callee.Pkg == nil || E.L.SSA[callee.Pkg.Pkg.Name()] != callee.Pkg {
@@ -705,12 +780,29 @@ func (E *Engine) callWrites(c *ssa.CallCommon, w map[string]bool) {
 					structKeys(t.Elem(), w)
 				}
 			case *types.Signature:
-				w["*"] = true
+				w["*dyn"] = true
 			case *types.Interface:
 				if !libNoCallback(callee) {
-					w["*"] = true
+					w["*dyn"] = true
 				}
 			}
+		}
+		return
+	}
+	if fc := E.CS.Funcs[funcKey(callee)]; fc != nil && len(fc.Preserves) > 0 && !fc.HasModifies && !fc.Pure {
+		tmp := &FnEnc{E: E, R: scratchReg}
+		drop := map[string]bool{}
+		for _, ks := range tmp.fieldKeys(fc.Preserves, callee.Pkg.Pkg) {
+			drop[ks[0]] = true
+		}
+		if cw, ok := E.effects[callee]; ok {
+			for k := range cw {
+				if !drop[k] {
+					w[k] = true
+				}
+			}
+		} else {
+			w["*"] = true
 		}
 		return
 	}
@@ -746,8 +838,12 @@ func (E *Engine) callWrites(c *ssa.CallCommon, w map[string]bool) {
 			return
 		}
 	}
-	for k := range E.writeSet(callee) {
-		w[k] = true
+	if cw, ok := E.effects[callee]; ok {
+		for k := range cw {
+			w[k] = true
+		}
+	} else {
+		w["*"] = true // function outside the verified packages without a body here
 	}
 }
 
@@ -908,4 +1004,179 @@ func (e *FnEnc) modifiesSpecial(m string, pkg *types.Package) ([]string, bool) {
 		return []string{vk, pk}, true
 	}
 	return nil, false
+}
+
+// excFromCall records the exceptional exit through a call: the state is the current one
+// with the callee's effects applied by mk (havoc of its frame, its unwind_ensures).
+func (f *frame) excFromCall(label string, pos token.Pos, mk func()) {
+	saveHeap, savePC := f.curHeap, f.curPC
+	f.curHeap = saveHeap.clone()
+	saveDef := f.inDeferred
+	f.inDeferred = true // nested effects of mk must not record further states
+	mk()
+	f.inDeferred = saveDef
+	pc, heap := f.curPC, f.curHeap
+	f.curHeap, f.curPC = saveHeap, savePC
+	f.recordExc(label, pos, pc, heap)
+}
+
+// slotContract finds the contract of a function-valued struct field that is being called.
+func (f *frame) slotContract(c *ssa.CallCommon) *FuncContract {
+	var owner types.Type
+	field := -1
+	switch v := c.Value.(type) {
+	case *ssa.Field:
+		owner, field = v.X.Type(), v.Field
+	case *ssa.UnOp:
+		if fa, ok := v.X.(*ssa.FieldAddr); ok {
+			owner, field = fa.X.Type().Underlying().(*types.Pointer).Elem(), fa.Field
+		}
+	}
+	if owner == nil {
+		return nil
+	}
+	n, ok := owner.(*types.Named)
+	if !ok || n.Obj().Pkg() == nil {
+		return nil
+	}
+	st := owner.Underlying().(*types.Struct)
+	return f.enc.E.CS.Slots[n.Obj().Pkg().Name()+"."+n.Obj().Name()+"."+st.Field(field).Name()]
+}
+
+func (f *frame) assumeSlot(slot *FuncContract, clauses []*Clause, args []SV, res SV, oldHeap Heap) {
+	bind := map[string]SV{}
+	for i, a := range args {
+		bind[fmt.Sprintf("arg%d", i)] = a
+	}
+	nb := map[string]SV{}
+	for k, v := range bind {
+		nb[k] = v
+	}
+	if res.term != "" {
+		nb["result"] = res
+	}
+	for _, cl := range clauses {
+		ctx := &evalCtx{f: f, pkg: f.enc.E.typesPkg(slot.Pkg), bind: nb, heap: f.curHeap, oldHeap: oldHeap, oldBind: bind, what: slot.Key}
+		f.assume(ctx.evalBoolText(cl.Text))
+	}
+}
+
+// havocDynamic: effect of code reached through function values / interfaces.  Everything
+// is havocked, except the fields the function's contract declares preserved by dynamic
+// callees (an inductive hypothesis, listed as an assumption) – unless the static part w
+// of the write set names them.
+func (f *frame) havocDynamic(w map[string]bool) {
+	e := f.enc
+	keep := map[string]string{}
+	if top := e.top; top != nil && top.contract != nil {
+		for _, m := range top.contract.DynPreserves {
+			parts := strings.SplitN(m, ".", 2)
+			tn, ok := top.fn.Pkg.Pkg.Scope().Lookup(parts[0]).(*types.TypeName)
+			if !ok || len(parts) != 2 {
+				cfail("dyn_preserves entry %q", m)
+			}
+			st := tn.Type().Underlying().(*types.Struct)
+			for i := 0; i < st.NumFields(); i++ {
+				if st.Field(i).Name() == parts[1] {
+					k, s := e.fieldHeapKey(tn.Type(), i)
+					if w == nil || !w[k] {
+						keep[k] = e.heapGet(f.curHeap, k, s)
+					}
+				}
+			}
+		}
+		if len(keep) > 0 {
+			e.note("assumed (inductive hypothesis): code reached through function values or interface methods leaves " + strings.Join(top.contract.DynPreserves, ", ") + " unchanged on return and on panic")
+		}
+	}
+	f.havocAllHeap()
+	for k, v := range keep {
+		f.curHeap[k] = v
+	}
+}
+
+// fieldKeys resolves "Type.field" entries to heap keys (with sorts) in package pkg.
+func (e *FnEnc) fieldKeys(entries []string, pkg *types.Package) [][2]string {
+	var out [][2]string
+	for _, m := range entries {
+		parts := strings.SplitN(m, ".", 2)
+		tn, ok := pkg.Scope().Lookup(parts[0]).(*types.TypeName)
+		if !ok || len(parts) != 2 {
+			cfail("field entry %q: want Type.field", m)
+		}
+		st, ok := tn.Type().Underlying().(*types.Struct)
+		if !ok {
+			cfail("field entry %q: not a struct", m)
+		}
+		found := false
+		for i := 0; i < st.NumFields(); i++ {
+			if st.Field(i).Name() == parts[1] {
+				k, srt := e.fieldHeapKey(tn.Type(), i)
+				e.R.heapConst(k, srt)
+				out = append(out, [2]string{k, srt})
+				found = true
+			}
+		}
+		if !found {
+			cfail("field entry %q: no such field", m)
+		}
+	}
+	return out
+}
+
+// restorePreserved: fields a callee declares preserved keep their pre-call arrays.
+func (f *frame) restorePreserved(fc *FuncContract, pkg *types.Package, oldHeap Heap) {
+	for _, ks := range f.enc.fieldKeys(fc.Preserves, pkg) {
+		if v, ok := oldHeap[ks[0]]; ok && !strings.HasPrefix(v, "?") {
+			f.curHeap[ks[0]] = v
+		} else {
+			f.curHeap[ks[0]] = f.enc.heapGet(oldHeap, ks[0], ks[1])
+		}
+	}
+}
+
+// onlyAtKeys resolves "p.f" entries: the pointer term of p and the heap key of field f.
+func (e *FnEnc) onlyAtKeys(entries []string, bind map[string]SV) [][3]string {
+	var out [][3]string
+	for _, m := range entries {
+		parts := strings.SplitN(m, ".", 2)
+		p, ok := bind[parts[0]]
+		if !ok || len(parts) != 2 {
+			cfail("writes_only_at entry %q: want param.field", m)
+		}
+		pt, ok := p.t.Underlying().(*types.Pointer)
+		if !ok {
+			cfail("writes_only_at entry %q: %s is not a pointer", m, parts[0])
+		}
+		st, ok := pt.Elem().Underlying().(*types.Struct)
+		if !ok {
+			cfail("writes_only_at entry %q: not a struct pointer", m)
+		}
+		found := false
+		for i := 0; i < st.NumFields(); i++ {
+			if st.Field(i).Name() == parts[1] {
+				k, srt := e.fieldHeapKey(pt.Elem(), i)
+				e.R.heapConst(k, srt)
+				out = append(out, [3]string{k, srt, p.term})
+				found = true
+			}
+		}
+		if !found {
+			cfail("writes_only_at entry %q: no such field", m)
+		}
+	}
+	return out
+}
+
+// restoreOnlyAt: of the named fields only the named object may have changed.
+func (f *frame) restoreOnlyAt(fc *FuncContract, bind map[string]SV, oldHeap Heap) {
+	e := f.enc
+	for _, ks := range e.onlyAtKeys(fc.OnlyAt, bind) {
+		old := e.heapGet(oldHeap, ks[0], ks[1])
+		cur := e.heapGet(f.curHeap, ks[0], ks[1])
+		if old == cur {
+			continue
+		}
+		e.heapSet(f.curHeap, ks[0], ks[1], fmt.Sprintf("(store %s %s (select %s %s))", old, ks[2], cur, ks[2]))
+	}
 }
